@@ -232,6 +232,9 @@ def strat(draw):
         # base text that contains escape sequences (stored with assign_str)
         raw = True
         t = ''.join(draw(st.lists(st.sampled_from(ALPHA[:28] + ESC_TOKENS * 3), min_size=n, max_size=n)))
+    elif mode == 4:
+        # signed numbers (str.zfill is sign-aware, the documented zfill is not)
+        t = draw(st.sampled_from(['-1', '+0', '-', '+', '--1', '-a', '+12', '-0.5'])) + t[:4]
     L = len(t)
 
     def sub(maxlen=3, allow_empty=True):
